@@ -146,6 +146,45 @@ def writer_model(cfgs, num_quick, num_thorough):
         return cov, viol
     return run
 
+def merger_model(sample_quick):
+    """Spec -> implementation for the merger: every overlap pattern explored by TLC in the Merger
+    model is replayed on the real merger (model keys expanded to groups of real keys), judged by
+    TraceMerger, and the predicted order of sources per key is compared with the real output."""
+    def run(prop, tier, seed, work):
+        import json, random
+        from vlib import NCPU, ToolError, tlc_mc, gv, validate_family, sample_scenario, file_violation
+        r = tlc_mc("MCMerger", "MCMerger_emit.cfg", "%s-mcmerger-emit" % prop, workers=8, timeout=1800, coverage=False)
+        if not r["ok"]:
+            raise ToolError("Merger model violates %s" % r["violated"])
+        runs = []
+        for line in r["out"].splitlines():
+            if line.startswith('"MRUN '):
+                body = line[len('"MRUN '):-1]
+                val = json.loads(body.replace("<<", "[").replace(">>", "]"))     # TLA+ tuples -> JSON arrays
+                srcs, outs = val[0], val[1]
+                runs.append(dict(srcs=srcs, out=outs))
+        total = len(runs)
+        if tier == "quick" and len(runs) > sample_quick:
+            runs = random.Random(seed).sample(runs, sample_quick)
+        d = os.path.join(work, "mrun")
+        os.makedirs(d, exist_ok=True)
+        with open(os.path.join(d, "m.json"), "w") as f:
+            json.dump(dict(name="MCMerger", runs=runs), f)
+        info = gv(["mrun", os.path.join(d, "m.json"), "--out", d, "--shards", NCPU, "--seed", seed])
+        res = validate_family("TraceMerger", "TraceMerger.cfg", d, "mrun", "%s-mrun" % prop)
+        cov = dict(kind="model-derived overlap patterns", patterns_in_model=total, replayed=len(runs),
+                   model_keys_compared=info.get("model_keys_compared"), drift_model_vs_impl=info.get("model_order_drift"),
+                   states=res["states"] + r["states"], transitions=res["generated"] + r["generated"],
+                   traces_validated_against_impl=res["scenarios"], events_validated=res["events"],
+                   evaluations=res["events"] + r["states"], distinct_nontrivial=res["distinct"] + r["states"],
+                   samples=[dict(family="mrun", first_lines=sample_scenario(d, "mrun", maxlines=8))])
+        viol = []
+        for rej in res["rejected"]:
+            p = file_violation(prop, rej, dict(module="TraceMerger", cfg="TraceMerger.cfg", family="mrun"))
+            viol.append((p, "%s (overlap pattern from the Merger model) rejected at event %s" % (rej["scn"], rej["ev"])))
+        return cov, viol
+    return run
+
 TRUST = ["TLC/SANY and the Json/IOUtils community modules",
          "harness glue that names a returned (key, value) by exact byte equality with an inserted pair",
          "dictionary ranks: TLC itself verifies that rank order is lexicographic byte order (Bytes!Cmp)"]
@@ -182,7 +221,9 @@ PLANS = {
                     MC("MCCursor_t50", "MCCursor_t50_fixed.cfg", workers=8),
                     MC("MCCursor_t9", "MCCursor_t9_fixed.cfg", workers=8, quick=False, timeout=7200)]),
     "C06": dict(level="model_checking", assumptions=TRUST + ["values of merge calls / outputs are named (source, position) by exact byte equality with the values the sources hold"],
-                mc=[MC("MCMerger", "MCMerger.cfg", workers=8)],
+                mc=[MC("MCMerger", "MCMerger.cfg", workers=8), MC("MCMerger", "MCMerger_4x3.cfg", workers=8),
+                    MC("MCMerger", "MCMerger_revtie.cfg", workers=8, expect="fail:OutPrefixOk")],
+                extra=[merger_model(400)],
                 gen=[G("merge", 400, 15000, "TraceMerger", "TraceMerger.cfg")]),
     "C07": dict(level="model_checking", assumptions=TRUST + ["hook H2 lowers the minimum budget / initial capacity for the small-scale runs; rayon schedules are sampled (pool sizes), not enumerated"],
                 mc=[MC("MCSorter", "MCSorter_content.cfg", workers=8), MC("MCSorter", "MCSorter_content1.cfg", workers=8)],
